@@ -144,7 +144,7 @@ class C16(HistoryProperty):
             return {"kind": "iface_nocache", "abstract": rng.random() < 0.5, "dicts": dicts, "ops": [], "spec": {"nodes": [], "roots": []}, "cfg": {}}
         variant = rng.random() < 0.15
         # (the nocache variant of a program equals "caching disabled" only if nothing else in it caches)
-        cfg = gen.swarm_cfg(rng, off=("shape_change", "alloptions", "nocache") + (("cached",) if variant else ()), on=("effects", "dataset"))
+        cfg = gen.swarm_cfg(rng, off=("shape_change", "alloptions", "nocache") + (("cached",) if variant else ()), on=("effects", "dataset", "fapp"))
         spec = gen.gen_spec(rng, cfg)
         # plain cached(...) nodes and other combinators are driven directly too (they see the caller's dictionary object itself)
         inner = [n["id"] for n in spec["nodes"] if n["k"] in ("cached", "apply", "list", "coalesce", "switch")]
